@@ -26,5 +26,12 @@ CONSTANTS
   TitleU <- TitlesGood
   MaxPages = 1
   Wins <- WinNo
+INVARIANT P1_FinalIsOverlay
+INVARIANT P1_NsAgrees
+INVARIANT P2_BackupBeforeOverrides
+INVARIANT P2_RestoreUndoesOverrides
+INVARIANT P3_ProbeWritesNothing
+INVARIANT P3_ProbeIsRight
+INVARIANT P3_OtherMarksKept
 INVARIANT GenInv
 CHECK_DEADLOCK FALSE
